@@ -59,7 +59,7 @@ def rand_z(rng):
 
 def new_src(rng, mode, w, h, fmt=None, frames=1, style=None):
     return {"kind": "new", "mode": mode, "w": w, "h": h, "seed": rng.randrange(1 << 30), "fmt": fmt,
-            "frames": frames, "style": rng.choice([0, 1, 2, 3]) if style is None else style}
+            "frames": frames, "style": rng.choice([0, 1, 2, 3, 4, 4]) if style is None else style}
 
 
 FILE_FMTS = {"RGB": ["PNG", "JPEG", "WEBP"], "RGBA": ["PNG", "WEBP"], "L": ["PNG", "JPEG"], "LA": ["PNG"],
@@ -218,6 +218,16 @@ def corpus(rng):
         cs.append({"style": "kitty", "method": "lines", "size": [rng.randint(1, 5), 3], "cell": [rng.randint(1, 9), ch],
                    "src": new_src(rng, rng.choice(["RGB", "RGBA"]), 7, 11), "source": "pil", "alpha": [0.5],
                    "z": 0, "mix": False, "blend": True, "compress": ch % 10, "via": "format"})
+    # LINES renders whose strips differ widely in compressibility (flat bands and noise bands at
+    # the render resolution): per-strip compression / encoding state must not leak between strips
+    for level in (1, 4, 9):
+        for mode in ("RGB", "RGBA"):
+            cs.append({"style": "kitty", "method": "lines", "size": [4, 4], "cell": [4, 4],
+                       "src": new_src(rng, mode, 16, 16, style=4), "source": "pil", "alpha": [0.5] if mode == "RGBA" else None,
+                       "z": 0, "mix": False, "blend": True, "compress": level, "via": "format"})
+        cs.append({"style": "iterm2", "method": "lines", "size": [4, 4], "cell": [4, 4],
+                   "src": new_src(rng, "RGB", 16, 16, style=4), "source": "pil", "alpha": None, "mix": False,
+                   "compress": level, "jq": None, "rff": None, "term": "iterm2", "via": "format", "z": 0, "blend": True})
     # iterm2: every method x term, file source at the gate boundary
     for method in ("lines", "whole", "anim"):
         for term in ("iterm2", "wezterm", "konsole"):
